@@ -89,3 +89,13 @@ VARIANTS += [
          old="        if study.direction == StudyDirection.MAXIMIZE:\n            alt = \"less\"\n            average_is_best = sum(best_step_values) / len(best_step_values) <= sum(\n                step_values\n            ) / len(step_values)\n        else:\n            alt = \"greater\"\n            average_is_best = sum(best_step_values) / len(best_step_values) >= sum(\n                step_values\n            ) / len(step_values)\n",
          new="        best_average = sum(best_step_values) / len(best_step_values)\n        average = sum(step_values) / len(step_values)\n        alt = \"less\" if study.direction == StudyDirection.MAXIMIZE else \"greater\"\n        average_is_best = best_average >= average\n"),
 ]
+
+PCT13 = "optuna/pruners/_percentile.py"
+VARIANTS += [
+    dict(id="c13-percentile-posinf-dropped", prop="C13", file=PCT13, expect="R13.5",
+         old="    return float(\n        np.nanpercentile(\n            np.array(intermediate_values, dtype=float),\n            percentile,\n        )\n    )\n",
+         new="    values = np.array(intermediate_values, dtype=float)\n    values[np.isposinf(values)] = np.nan\n    return float(np.nanpercentile(values, percentile))\n"),
+    dict(id="c13-neutral-percentile-local-array", prop="C13", file=PCT13, expect=None,
+         old="    return float(\n        np.nanpercentile(\n            np.array(intermediate_values, dtype=float),\n            percentile,\n        )\n    )\n",
+         new="    values = np.array(intermediate_values, dtype=float)\n    return float(np.nanpercentile(values, percentile))\n"),
+]
